@@ -838,10 +838,18 @@ def m_sig0_nan(c):
             and c["clause"] in ("A", "C"))
 
 
+def m_excl_default_list(c):
+    """exclude_types in the default list mode: the difflib pass keeps ONE report of a non-excluded item"""
+    w = str(c["with_options"])
+    return (c["clause"] == "A" and c["exc"] is None and not c["zip"] and bool(c["spec"]["excl"])
+            and any(x in ("excl@leaf", "excl@sub") for x in c["altered"])
+            and "iterable_item_" in w and "values_changed" not in w and "type_changes" not in w)
+
+
 def m_excl_set(c):
     """a set member whose TYPE was changed (str <-> bytes, int <-> float) into / out of an excluded type"""
     return (c["clause"] == "A" and c["exc"] is None and bool(c["spec"]["excl"])
-            and any(x in ("strty@set", "numty@set") for x in c["altered"]))
+            and any(x in ("strty@set", "numty@set") for x in c["altered"]) and "set_item" in str(c["with_options"]))
 
 
 def m_enum_type(c):
@@ -869,7 +877,7 @@ def m_num_key(c):
 
 
 def m_eps_set(c):
-    return _only(c, ("eps",), ("set",))
+    return _only(c, ("eps",), ("set",)) and "set_item" in str(c["with_options"])
 
 
 def m_eps_over_sig(c):
@@ -917,13 +925,13 @@ def m_alias_key(c):
 
 
 def m_tag_set(c):
-    return c["clause"] == "B" and "tag_like_set_member" in c["features"]
+    return c["clause"] == "B" and "tag_like_set_member" in c["features"] and "set_item" in str(c["with_options"])
 
 
 def m_memo_set(c):
     """plain run: 1 / 1.0 among set members share one hash through the memo table (K2); an option that changes the
     hash text of numbers (significant_digits) or drops members (exclude_types) interacts with it"""
-    return c["clause"] in ("A", "B") and c["exc"] is None and "set_alias" in c["features"]
+    return c["clause"] in ("A", "B") and c["exc"] is None and "set_alias" in c["features"] and "set_item" in str(c["with_options"])
 
 
 MATCHERS = {
@@ -932,6 +940,7 @@ MATCHERS = {
     "C11-ENUM-TYPE": m_enum_type,
     "C11-SIG0-NAN": m_sig0_nan,
     "C11-EXCL-SET": m_excl_set,
+    "C11-EXCL-DEFAULT-LIST": m_excl_default_list,
     "C11-NUMGROUP-DATETIME": m_numgroup_dt,
     "C11-NUM-KEY": m_num_key,
     "C11-EPS-SET": m_eps_set,
@@ -1005,6 +1014,11 @@ def gen_pairs(rng, sp, n, rich):
         numeric_ok = (not k8_active(sp)) or rng.random() < 0.3
         bytes_ok = rng.random() < (0.7 if sp["strty"] else 0.25)
         a = gen_value(rng, rng.choice([1, 2, 2, 3]), rng.choice([2, 3, 4]), bytes_ok, numeric_ok, rich, sp["nan"])
+        if sp["excl"] and rng.random() < 0.25:      # an all-atom list rich in atoms of the excluded types
+            pool = [atom_of_types(rng, sp["excl"], rich) for _ in range(3)] + [rng.choice(STRS[:4]), rng.choice(STRS[:4]), 7.5]
+            a = [rng.choice(pool) for _ in range(rng.randint(3, 6))]
+            if rng.random() < 0.5:
+                a = {"k": a}
         r = rng.random()
         log = []
         if r < 0.5:
@@ -1082,6 +1096,7 @@ WITNESSES = [
     ("C11-ALIAS-KEY", {1: 0}, {True: 0}, mk(case=True, sig=2), "nonempty"),
     ("C11-TAG-SET", {"int:1"}, {1}, mk(sig=2), "nonempty"),
     ("C11-EXCL-SET", {"0"}, {b"0"}, mk(strty=True, excl=["bytes"]), "nonempty"),
+    ("C11-EXCL-DEFAULT-LIST", [1, "x", 2, 1], [2, "x", 1, 3], mk(excl=["int"]), "nonempty"),
     ("C11-SIG0-NAN", [float("nan")], [1.0], mk(sig=0), "raises:ValueError"),
     ("C11-TRUNC-BEFORE-TZ", {"k": _dt(2024, 6, 1, 12, 40, 27, 0, 120)}, {"k": _dt(2024, 6, 1, 16, 25, 27, 0, 345)}, mk(trunc="hour"), "nonempty"),
 ]
@@ -1124,7 +1139,7 @@ def run(ctx):
             if not in_model_universe(a) or not in_model_universe(b):
                 ctx.count("corr_skipped:outside_universe")
                 continue
-            if D.set_alias(a, b) and not sp["numty"]:
+            if D.set_alias(a, b) and (not sp["numty"] or sp["excl"]):   # under numty alone both aliases hash to one text anyway
                 ctx.count("corr_skipped:set_alias(K2 memo)")
                 continue
             mjobs.append((a, b, sp, zip_, thr, fam, name))
